@@ -1,6 +1,6 @@
 (* C06 — each command goes on the wire exactly once, whole, and before any waiting. *)
 From TI Require Import Bytes Grammar Nom Interp Natives Builders Client ClientProofs.
-From TI Require Import TagsProofs TagsSource.
+From TI Require Import TagsProofs HookSource.
 From TI.gen Require Import ClientTables.
 From Coq Require Import String List.
 Import ListNotations.
